@@ -26,6 +26,7 @@ func checkC09(p *Prog, r *Report) {
 	ruleC09Idx(p, a, r)
 	ruleC09Ifchanged(p, a, r)
 	ruleC09Shared(p, a, r)
+	ruleC09SortOrder(p, a, r)
 }
 
 func ruleC09State(p *Prog, a *Anchors, r *Report) {
@@ -919,5 +920,84 @@ func ruleC09Ifchanged(p *Prog, a *Anchors, r *Report) {
 		r.OK("compare:every-kind", other, "compared without EqualValueTo")
 	default:
 		r.Unk("compare:every-kind", p.Pos(exec.Pos()), "no comparison of the remembered with the new values found")
+	}
+}
+
+// ruleC09SortOrder: "sorted … as requested": the ordering that `sorted` uses compares two integers as integers (Go's
+// < on the Integer() of both, reached when both are integers) and has a float form for the rest of the numbers. An
+// ordering that reads every number as a float cannot tell integers above 2^53 apart: they tie, and the "sorted" order of
+// such ids or timestamps is whatever order they arrived in (for a map: random).
+func ruleC09SortOrder(p *Prog, a *Anchors, r *Report) {
+	r.Begin("R-C09-SORT", "the Less functions used for `sorted` compare integers with Go's integer < (under IsInteger of both values) and other numbers with the float <", 2)
+	n := 0
+	for _, f := range p.inPkgFuncsSorted(p.allFuncSet()) {
+		if f.Name() != "Less" || f.Signature.Recv() == nil || f.Signature.Params().Len() != 2 || f.Signature.Results().Len() != 1 {
+			continue
+		}
+		n++
+		key := p.FuncName(f) + ":integers"
+		hasInt, intGuarded, hasFloat := false, true, false
+		for _, fn := range clusterOf(p, f, 1) {
+			if recv := fn.Signature.Recv(); recv != nil && fn != f {
+				continue // accessors of Value etc.: the ordering is what Less and its plain helpers compare
+			}
+			for _, b := range fn.Blocks {
+				for _, in := range b.Instrs {
+					x, ok := in.(*ssa.BinOp)
+					if !ok || (x.Op != token.LSS && x.Op != token.GTR) || !isNumeric(x.X.Type()) {
+						continue
+					}
+					if _, isC := x.Y.(*ssa.Const); isC {
+						continue
+					}
+					bt, _ := x.X.Type().Underlying().(*types.Basic)
+					if bt == nil {
+						continue
+					}
+					if bt.Info()&types.IsFloat != 0 {
+						hasFloat = true
+						continue
+					}
+					if bt.Info()&types.IsInteger == 0 {
+						continue
+					}
+					// operands: Integer() of two values, each shown IsInteger()
+					recvOf := func(v ssa.Value) ssa.Value {
+						c, ok := v.(*ssa.Call)
+						if !ok || c.Common().StaticCallee() == nil || c.Common().StaticCallee().Name() != "Integer" || len(c.Common().Args) == 0 {
+							return nil
+						}
+						return c.Common().Args[0]
+					}
+					rx, ry := recvOf(x.X), recvOf(x.Y)
+					if rx == nil || ry == nil {
+						continue
+					}
+					hasInt = true
+					for _, rv := range []ssa.Value{rx, ry} {
+						v := rv
+						if !Guarded(in, func(c ssa.Value, pol bool) bool {
+							cc, ok := c.(*ssa.Call)
+							return ok && pol && cc.Common().StaticCallee() != nil && cc.Common().StaticCallee().Name() == "IsInteger" && len(cc.Common().Args) > 0 && p.VN(cc.Common().Args[0]) == p.VN(v)
+						}) {
+							intGuarded = false
+						}
+					}
+				}
+			}
+		}
+		switch {
+		case !hasInt:
+			r.Bad(key, p.Pos(f.Pos()), "the ordering has no integer comparison (Integer() < Integer()): two integers are compared as floats (or as text), so distinct integers above 2^53 tie and `sorted` leaves them in arrival order")
+		case !intGuarded:
+			r.Bad(key, p.Pos(f.Pos()), "the integer comparison is not under IsInteger() of both values")
+		case !hasFloat:
+			r.Bad(key, p.Pos(f.Pos()), "the ordering has no float comparison: 1.5 and 1.25 are compared as text or truncated")
+		default:
+			r.OK(key, p.Pos(f.Pos()), "integers by integer <, other numbers by float <")
+		}
+	}
+	if n == 0 {
+		r.Unk("Less", "-", "no Less method found in the package (the ordering used by `sorted` is not recognised)")
 	}
 }
